@@ -334,6 +334,9 @@ type PosWriter struct {
 	// Full: the failing call takes ALL of the data and still returns the error - (len(p), err), which io.Writer allows
 	// (a framing writer that has buffered the payload when the flush underneath fails)
 	Full bool
+	// ShortNil: call FailCall takes half of the data and reports (n/2, nil) - a writer that breaks the io.Writer
+	// contract (a short count without an error); later calls behave normally
+	ShortNil bool
 	// Transient: only call FailCall fails (nothing is taken); later calls succeed again.
 	Transient bool
 	Hit       bool
@@ -351,6 +354,14 @@ func (w *PosWriter) Write(p []byte) (int, error) {
 		e := w.Err
 		if e == nil {
 			e = ErrInjected
+		}
+		if w.ShortNil {
+			if len(p) < 2 {
+				w.Buf = append(w.Buf, p...)
+				return len(p), nil
+			}
+			w.Buf = append(w.Buf, p[:len(p)/2]...)
+			return len(p) / 2, nil
 		}
 		if w.Full {
 			w.Buf = append(w.Buf, p...)
